@@ -197,6 +197,7 @@ void exec_op(op_t *op) {
 		else logev(EV_SKIP, op->id, (int32_t)op->a, 0);
 		break; }
 	case K_SETTIMER:
+		if (op->e > 0) s->clock = (int)op->e - 1;      // the new settings are expressed on another clock (only generated by checks without a timing oracle: C17)
 		logev(EV_CALL, op->id, (int32_t)op->a, op->kind); do_settimer(s, (int)op->a, op->id, op->b, op->c, op->d); logev(EV_RET, op->id, (int32_t)op->a, 0);
 		break;
 	case K_PWRITE: {
